@@ -499,6 +499,57 @@ func replicationCase(t *testing.T, run *vt.Run, c vt.CaseID, rng *rand.Rand) {
 					run.Violation(c, "replication/sets-differ-from-healthy-owners", fmt.Sprintf("replication sets %v, healthy registered owners per partition %v", got, want), detail)
 				}
 			}
+			// the same clause on derived rings (shuffle shards with and without look-back): the sets of a derived ring
+			// are exactly the healthy registered owners of the partitions it holds, healthy by the configured
+			// heartbeat timeout, whatever the look-back period
+			for k := 0; k < 3; k++ {
+				size := 1 + rng.IntN(np+1)
+				id := fmt.Sprintf("tenant-%d", rng.IntN(4))
+				lookback := []time.Duration{0, 10 * time.Second, time.Hour, 61 * time.Second}[rng.IntN(4)]
+				var sub *ring.PartitionInstanceRing
+				var serr error
+				if lookback == 0 {
+					sub, serr = pir.ShuffleShard(id, size)
+				} else {
+					sub, serr = pir.ShuffleShardWithLookback(id, size, lookback, time.Unix(now, 0))
+				}
+				if serr != nil {
+					run.Count("derived_ring_errors", 1) // e.g. no active partition: nothing to compare
+					continue
+				}
+				pids := sub.PartitionRing().PartitionIDs()
+				if len(pids) == 0 {
+					run.Count("derived_rings_without_partitions", 1) // an empty ring is an error of its own; nothing to compare
+					continue
+				}
+				dsets, derr := sub.GetReplicationSetsForOperation(o.op)
+				dEmpty := false
+				var dgot, dwant []string
+				for _, p := range pids {
+					h := healthyOwners(p)
+					if len(h) == 0 {
+						dEmpty = true
+					}
+					dwant = append(dwant, fmt.Sprint(h))
+				}
+				ddetail := map[string]any{"instances": insts, "owners": owners, "op": o.sp.Name, "derived_by": map[string]any{"identifier": id, "size": size, "lookback": lookback.String()}, "partitions_in_derived_ring": pids}
+				run.Count("derived_rings_checked", 1)
+				run.EvalH(vt.Hash64(fmt.Sprint(insts, owners, o.sp.Name, id, size, lookback)), true)
+				if dEmpty != (derr != nil) {
+					run.Violation(c, "replication/derived/error-presence", fmt.Sprintf("derived ring: GetReplicationSetsForOperation error=%v, a partition without healthy owner exists=%v", derr, dEmpty), ddetail)
+					continue
+				}
+				if derr == nil {
+					for _, s := range dsets {
+						dgot = append(dgot, fmt.Sprint(rk.IDs(s)))
+					}
+					sort.Strings(dgot)
+					sort.Strings(dwant)
+					if fmt.Sprint(dgot) != fmt.Sprint(dwant) {
+						run.Violation(c, "replication/derived/sets-differ-from-healthy-owners", fmt.Sprintf("derived ring: replication sets %v, healthy registered owners per partition %v", dgot, dwant), ddetail)
+					}
+				}
+			}
 		} else {
 			mr := ring.NewMultiPartitionInstanceRing(prReader{pr}, ir, time.Duration(timeout)*time.Second)
 			for p := 0; p < np; p++ {
